@@ -30,9 +30,13 @@ CLAIMS = {
         text="resume_obligations for every reachable state of the closed client x environment system (a new connection carries bind and then exactly the owed claim/release, open + every un-echoed message, close, list, allocate - finite certificate over the generated tables lifted by induction), per-machine resume/lost table theorems by decide, data-layer pending_until_echo / drain_resends_all, nothing_repeated over all drop patterns; per-step correspondence with the real client under frequent drops; two-real-client oracle (drops on both sides, then stable connectivity: every send_message delivered exactly once, in order; key/verifier/versions once).",
         note="Certificate evaluated with native_decide (reported per theorem). Partial: the liveness clause (eventually delivered once both stay connected) is stated as a def and checked by the two-client oracle only; no fair-scheduler proof.",
         tech="Lean 4: finite certificate (native_decide) + kernel-checked lifting + table decide + data-layer lemmas; per-step differential correspondence"),
+    "C16": dict(
+        text="10 Lean theorems over the generated TrafficTimer and Manager tables for every interval T>=1 and arbitrary timed operation lists: responsive_never_dropped, silent_dropped_in_time / silent_after_answered_ping (drop exactly at the second expiry, < 3T), monitor_lifecycle, monitoring_restarts, follower_never_monitors, legal_never_raises, plus the witness that the pre-fix row violates the bound; delay/reset branch taken from generated flags; tied to a real leader Manager with task.Clock on a 1/8 s grid.",
+        note="Modelled not verified: Connector mocked; loss is a separate event after disconnect(); ping-id freshness (os.urandom) assumed; argument values inside callLater are visible only to correspondence and oracle.",
+        tech="Lean 4 proof (induction over timed traces on generated tables) + skeleton agreement + differential correspondence"),
     "C18": dict(
         text="each_at_most_once, causal_order (code<key<verifier<{versions,messages}), closed_last for every run of the closed system under arbitrarily reordering/duplicating servers, versions_before_messages under an order-preserving server (second certificate), table rows by decide; per-step correspondence with the real client; two-client oracle over both API styles incl. every get_* after closed failing.",
-        note="Certificates evaluated with native_decide (reported per theorem). The Deferred observers are covered by the OBSERVER component (WV.Props.C18obs) when present, otherwise only by the oracle.",
+        note="Certificates evaluated with native_decide (reported per theorem). The Deferred facade (OneShotObserver, SequenceObserver, EventualQueue, _DeferredWormhole.closed) is a second executable model OBSERVER with 11 kernel-only theorems (after_closed_all_fail, each_deferred_fires_at_most_once, oneshot_first_value, observer_fifo, eventual_fifo/turn) tied to a real _DeferredWormhole.",
         tech="Lean 4: finite certificates (native_decide) with monitors + kernel-checked lifting; per-step differential correspondence"),
     "C10": dict(
         text="Unbounded ARQ invariant (inv_reachable) and exactly_once_in_order / final_generation_delivers_all proved by induction over arbitrary event schedules on an executable model of Outbound/Inbound/Manager.got_record; tied to two real Managers with fake L2 connections by per-step state comparison.",
